@@ -415,5 +415,17 @@ func (a *Analyzer) CmpIgnoresRef() (bool, string) {
 			}
 		}
 	}
-	return false, "cmputil.Opts no longer ignores the Ref field: two spellings of the same pointer make structurally identical types unequal, so type reuse depends on the spelling"
+	// a custom treatment of the field (cmp.Comparer / cmp.Transformer / cmpopts.AcyclicTransformer / cmp.FilterPath) is taken
+	// as "handled on purpose": what it does with the two spellings is not decided here
+	for _, c := range Calls(f) {
+		if g := c.Common().StaticCallee(); g != nil {
+			n := g.String()
+			for _, k := range []string{"cmp.Comparer", "cmp.Transformer", "cmpopts.AcyclicTransformer", "cmp.FilterPath", "cmp.FilterValues"} {
+				if strings.HasSuffix(n, k) || strings.Contains(n, k+"[") {
+					return true, "cmputil.Opts installs " + k + ": the reference field is compared by a custom rule (its spelling-insensitivity is not decided by this check)"
+				}
+			}
+		}
+	}
+	return false, "cmputil.Opts neither ignores the Ref field nor compares it by a custom rule: two spellings of the same pointer ('#/$defs/X', '#/definitions/X') make structurally identical types unequal, so type reuse depends on the spelling"
 }
